@@ -452,6 +452,18 @@ func runC06(env *core.Env) {
 		c06EnvProg(env, "criteria-order-all", "%ord.all("+c.crit+")", c.want["all"], eo)
 		env.Cover("criteria-item-order")
 	}
+	// a collection read twice by one expression, with a criterion in between that some items fail
+	for _, c := range [][2]string{{"%ft.exists($this) and %ft.all($this).not()", "T"}, {"%ft.all($this).not() and %ft.exists($this)", "T"}, {"%ft.where($this).count() = 1 and %ft.first().not()", "T"}, {"%ft.first().not() and %ft.where($this).count() = 1", "T"},
+		{"%ft.where($this).exists() implies %ft.first()", "F"}, {"%ft.first() or %ft.where($this).exists()", "T"}, {"%ft.where($this).exists() xor %ft.first()", "T"}, {"%ft.first() xor %ft.where($this).exists()", "T"},
+		{"%ft.exists($this) and %ft.first().not() and %ft.last()", "T"}, {"%ft.select($this.not()).first() and %ft.where($this).exists() and %ft.first().not()", "T"}} {
+		n++
+		if !env.Mine(n) {
+			continue
+		}
+		eo := []fhirpath.EvaluateOption{evalopts.EnvVariable("ft", system.Collection{system.Boolean(false), system.Boolean(true)})}
+		c06EnvProg(env, "collection-reread-after-criterion", c[0], c[1], eo)
+		env.Cover("collection-reread-after-criterion")
+	}
 	// commutativity also holds when the expression is compiled with the (deprecated) Permissive option: whatever
 	// that option changes about navigation, it changes for both operands alike
 	in0, eo0 := c06Inputs()
